@@ -698,10 +698,35 @@ type Engine struct {
 	mk   func() (bttest.Storage, func())
 }
 
-var coinMu sync.Mutex
+// The coin of the row sample filter is a package variable of bttest. It is installed once and
+// looks the calling goroutine up: every request (sequential or scheduled) registers its own coins,
+// so emulator instances running in parallel in this process never consume each other's coins.
+type coinState struct {
+	coins []bool
+	i     int
+}
+
+var (
+	coinByG  sync.Map // goroutine id -> *coinState
+	coinOnce sync.Once
+)
+
+func globalCoin() float64 {
+	v, ok := coinByG.Load(goid())
+	if !ok {
+		return 0.75
+	}
+	st := v.(*coinState)
+	i := st.i
+	st.i++
+	if i < len(st.coins) && st.coins[i] {
+		return 0.25
+	}
+	return 0.75
+}
 
 type Emu struct {
-	concurrent bool // requests run concurrently: per-goroutine clocks only, no sample coins
+	concurrent bool // requests run concurrently: per-goroutine clocks only
 	nowByG sync.Map
 	v     *bttest.VerifServer
 	now   int64
@@ -929,12 +954,9 @@ func (e *Emu) exec(c Call) Resp {
 		e.coins = c.Coins
 		e.ci = 0
 	}
-	if len(c.Coins) > 0 && !e.concurrent {
-		// the coin of the row sample filter is a package variable: requests that use it run one at a time
-		coinMu.Lock()
-		defer coinMu.Unlock()
-		bttest.VerifSetRandFloat(e.coin)
-	}
+	coinOnce.Do(func() { bttest.VerifSetRandFloat(globalCoin) })
+	coinByG.Store(g, &coinState{coins: c.Coins})
+	defer coinByG.Delete(g)
 	ctx := context.Background()
 	r := c.Req
 	data, admin := e.v.Data(), e.v.Admin()
